@@ -56,6 +56,9 @@ func main() {
 	var items []*item
 	for i := 0; i < n; i++ {
 		it := &item{token: fmt.Sprintf("c02tok%d", i), tree: mimegen.Gen(rng, 3), user: users[rng.Intn(2)]}
+		if i%7 == 3 {
+			it.tree = mimegen.GenDeep(rng, 5+rng.Intn(5)) // containers nested five to nine deep
+		}
 		it.top = mimegen.TopHeaders(rng, it.token)
 		it.msg = it.tree.Serialize(it.top)
 		if rng.Bool() {
